@@ -18,8 +18,10 @@ package main
 //             wss       HTTPS websocket, real HttpServer + upstream.Http (thorough)
 //             ws        StartTLS over a plain websocket, real HttpServer + upstream.Http (thorough)
 //   hostname  the host part of the upstream address (pipe: any; tcp*: localhost | 127.0.0.1; stdin: -)
-//   scert     good | nameonly | wronghost | untrusted | expired
-//   cinsecure 0|1     cca  A|-     ccert  none|good|foreign     sreq 0|1     sca  A|-
+//   scert     good | nameonly | wronghost | untrusted | expired (24 h ago) | exp1m | exp1s | notyet | fresh
+//             (the last four: validity period placed relative to the moment of use, see c05_pki.go)
+//   cinsecure 0|1     cca  A|-     sreq 0|1     sca  A|-
+//   ccert     none | good | foreign | expired | exp1m | exp1s | notyet | fresh
 // result: established | refused
 
 import (
@@ -213,8 +215,8 @@ type c05Cell struct {
 
 var (
 	c05Carriers = []string{"pipe", "tcp", "tcp+tls", "stdin+tls", "udp", "wss", "ws"}
-	c05SCerts   = []string{"good", "nameonly", "wronghost", "untrusted", "expired"}
-	c05CCerts   = []string{"none", "good", "foreign"}
+	c05SCerts   = []string{"good", "nameonly", "wronghost", "untrusted", "expired", "exp1m", "exp1s", "notyet", "fresh"}
+	c05CCerts   = []string{"none", "good", "foreign", "expired", "exp1m", "exp1s", "notyet", "fresh"}
 )
 
 func parseC05Cell(op string) (c05Cell, bool) {
@@ -255,8 +257,8 @@ func c05ServerCertAttrs(kind string) (signer string, names []string, expired boo
 		return "A", []string{"other.test", "10.9.9.9"}, false
 	case "untrusted":
 		return "B", []string{"server.test", "localhost", "127.0.0.1"}, false
-	case "expired":
-		return "A", []string{"server.test", "localhost", "127.0.0.1"}, true
+	case "expired", "exp1m", "exp1s", "notyet", "fresh":
+		return "A", []string{"server.test", "localhost", "127.0.0.1"}, c05outsideValidity(kind)
 	}
 	return "?", nil, false
 }
@@ -266,7 +268,13 @@ func (c c05Cell) serverAcceptable() bool {
 	return c.cca == "A" && signer == "A" && !expired && c05in(names, c.hostname)
 }
 
-func (c c05Cell) clientAcceptable() bool { return c.ccert == "good" && c.sca == "A" }
+func (c c05Cell) clientAcceptable() bool { return c05ClientCertAcceptable(c.ccert) && c.sca == "A" }
+
+// client leaves: "foreign" is signed by CA B, every other one by CA A; acceptable = signed by A
+// and inside its validity period at the moment of use
+func c05ClientCertAcceptable(ccert string) bool {
+	return ccert != "none" && ccert != "foreign" && !c05outsideValidity(ccert)
+}
 
 type authmatrixComp struct{}
 
@@ -298,7 +306,7 @@ func (authmatrixComp) exec1(op string) (string, string, string, bool) {
 	sink := getC05Sink()
 	before := atomic.LoadInt64(&sink.bytes)
 
-	sleaf := p.server[cell.scert]
+	sleaf := p.serverLeaf(cell.scert) // boundary classes: signed now, for this attempt
 	srvCfg := cert.ServerConfig{Config: cert.Config{Certificate: sleaf.certPEM, PrivateKey: sleaf.keyPEM}, RequireClientCert: cell.sreq}
 	if cell.sca == "A" {
 		srvCfg.CaCertificate = p.caPEM["A"]
@@ -308,8 +316,9 @@ func (authmatrixComp) exec1(op string) (string, string, string, bool) {
 		cliCfg.CaCertificate = p.caPEM["A"]
 	}
 	if cell.ccert != "none" {
-		cliCfg.Certificate = p.client[cell.ccert].certPEM
-		cliCfg.PrivateKey = p.client[cell.ccert].keyPEM
+		cleaf := p.clientLeaf(cell.ccert)
+		cliCfg.Certificate = cleaf.certPEM
+		cliCfg.PrivateKey = cleaf.keyPEM
 	}
 	sinkURL, _ := url.Parse("tcp://" + sink.ln.Addr().String())
 	echo := &server.NetworkChannel{}
@@ -492,6 +501,19 @@ func (authmatrixComp) Gen(r *Rand, tier string, emit func(string)) {
 										continue
 									}
 									if (c.carrier == "udp" || c.carrier == "ws") && (cca == "-" || sca == "-") {
+										continue
+									}
+									// validity-boundary classes (c05_pki.go): every boundary server certificate
+									// with the client certificates {none, good, exp1m}, every boundary / expired
+									// client certificate with the server certificates {good, fresh} as well
+									sNew, cNew := c05in(c05BoundaryClasses, sc), cc == "expired" || c05in(c05BoundaryClasses, cc)
+									if sNew && !(cc == "none" || cc == "good" || cc == "exp1m") {
+										continue
+									}
+									if cNew && !sNew && !(sc == "good") {
+										continue
+									}
+									if cNew && sNew && !(cc == "exp1m" || sc == "fresh") {
 										continue
 									}
 									emit(strings.Join([]string{c.carrier, h, sc, b(ins), cca, cc, b(sreq), sca}, " "))
